@@ -130,16 +130,24 @@ func BFSOutput(res *engine.Result, cfg engine.Config, assumptions []string) Outp
 }
 
 func init() {
-	Register("C03", BFSRunner(func(tier string) (Spec, engine.Config, []string) {
+	Register("C03", MultiRunner(func(tier string) ([]MultiCase, []string) {
 		cfg := engine.Config{MaxDepth: 6, Deadline: 60 * time.Second, ReplayLeaf: 50}
+		lcfg := engine.Config{MaxDepth: 5, Deadline: 60 * time.Second, ReplayLeaf: 50}
 		if tier == "thorough" {
 			cfg = engine.Config{MaxDepth: 9, Deadline: 15 * time.Minute, ReplayLeaf: 500}
+			lcfg = engine.Config{MaxDepth: 8, Deadline: 10 * time.Minute, ReplayLeaf: 500}
 		}
-		return NewC03(tier), cfg, []string{
-			"3 bonded validators of equal power 10 (threshold floor(66*30/100)=19: two votes needed), one chain (ethereum), deposit events only",
-			"event alphabet: nonces 1..3, two conflicting variants per nonce; amounts are distinct powers of 4 so that the balance identifies the multiset of applied events",
-			"staking is a scripted table answering the calls the module makes",
-		}
+		// a validator that leaves for good (x/staking deletes its record and says so through the staking hooks app.go
+		// registers for the mhub2 keeper) and is created again by the same operator is still the same validator
+		lv := NewC03(tier)
+		lv.Leave = true
+		lv.Nonces = 2
+		return []MultiCase{{Name: "three bonded validators", Spec: NewC03(tier), Cfg: cfg},
+				{Name: "validator A leaves (record removed) and is created again", Spec: lv, Cfg: lcfg}}, []string{
+				"3 bonded validators of equal power 10 (threshold floor(66*30/100)=19: two votes needed), one chain (ethereum), deposit events only",
+				"event alphabet: nonces 1..3 (1..2 in the second case), two conflicting variants per nonce; amounts are distinct powers of 4 so that the balance identifies the multiset of applied events",
+				"staking is a scripted table answering the calls the module makes; removal and re-creation of a validator fire the keeper's staking hooks as x/staking does",
+			}
 	}))
 }
 
